@@ -44,6 +44,8 @@ def as_case(k):
     res['key'] = digest('as', *map(str, job))
     res['nontrivial'] = ev.res is not None
     res['counters']['assignment_matrix'] = 1
+    if k == 0:
+        res['sample'] = dict(common.sample_of(p, argv, ev, 900), job=f'assignment matrix with ?? {job}')
     res['digest'] = digest(res['key'], ev.res.history if ev.res is not None else None, found)
     if found:
         cls, detail = found[0][:2]
